@@ -23,11 +23,12 @@ import (
 // success/failure script. Process death is observed by the parent (expectation children).
 
 type c19Params struct {
-	Script     string   `json:"script,omitempty"`  // S/F per ping, then S forever
-	StopAt     int      `json:"stop_at,omitempty"` // call Stop() after this many pings returned (0 = never)
-	Calls      []string `json:"calls,omitempty"`   // permutation scenario: sequence of Start/Stop calls
-	IntervalMs int      `json:"interval_ms,omitempty"`
-	SlowFailMs int      `json:"slow_fail_ms,omitempty"` // a failing ping takes this long to fail (a ping that runs into its timeout)
+	Script         string   `json:"script,omitempty"`  // S/F per ping, then S forever
+	StopAt         int      `json:"stop_at,omitempty"` // call Stop() after this many pings returned (0 = never)
+	Calls          []string `json:"calls,omitempty"`   // permutation scenario: sequence of Start/Stop calls
+	IntervalMs     int      `json:"interval_ms,omitempty"`
+	FailWithResult bool     `json:"fail_with_result,omitempty"` // a failing ping returns a result next to the error, as the real client does when only one service answers
+	SlowFailMs     int      `json:"slow_fail_ms,omitempty"`     // a failing ping takes this long to fail (a ping that runs into its timeout)
 }
 
 type pingClient struct {
@@ -40,6 +41,7 @@ type pingClient struct {
 	after    chan int // receives ping index after each ping returned
 	delay    time.Duration
 	slowFail time.Duration
+	failRes  bool
 	times    []time.Time
 }
 
@@ -76,6 +78,9 @@ func (p *pingClient) Ping() (*models.PingResult, error) {
 	}
 	if ok {
 		return &models.PingResult{MemdEndpoint: "m", MgmtEndpoint: "g"}, nil
+	}
+	if p.failRes {
+		return &models.PingResult{MemdEndpoint: "m"}, errors.New("some services are not healthy")
 	}
 	return nil, errors.New("scripted ping failure")
 }
@@ -133,9 +138,19 @@ func init() {
 			add("round", c19Params{Script: "FFFFF", SlowFailMs: 1050}, true)
 			add("round", c19Params{Script: "FFFFS", SlowFailMs: 1050}, true)
 			add("round", c19Params{Script: "SFFFFF", SlowFailMs: 1100}, true)
+			// failing pings that come with a result (client.Ping returns its result next to "some services are not healthy")
+			add("round", c19Params{Script: "FFFFF", FailWithResult: true}, true)
+			add("round", c19Params{Script: "FFFFS", FailWithResult: true}, true)
+			add("round", c19Params{Script: "SFSFFFFF", FailWithResult: true}, true)
 			for k := 0; k < 2; k++ {
 				raw, _ := json.Marshal(c19Params{IntervalMs: []int{5, 20}[k]})
 				out = append(out, drv.Scenario{Kind: "stop-slow-ping", Seed: seed, Params: raw, TimeoutS: 120, Solo: true})
+			}
+			// two Stop() calls racing each other while a ping is in flight and the next tick is due: neither may return
+			// before the checker has stopped
+			for k := 0; k < 2; k++ {
+				raw, _ := json.Marshal(c19Params{IntervalMs: []int{5, 20}[k]})
+				out = append(out, drv.Scenario{Kind: "stop-twice", Seed: seed, Params: raw, TimeoutS: 120, Solo: true})
 			}
 			// Stop() right after Start(), before the check goroutine has run at all (one processor): nothing may be pinged afterwards
 			for k := 0; k < 3; k++ {
@@ -191,7 +206,7 @@ func init() {
 					stopped = true
 				}
 			}
-			if sc.Kind == "stop" || sc.Kind == "calls" || sc.Kind == "stop-at-once" || sc.Kind == "stop-slow-ping" {
+			if sc.Kind == "stop" || sc.Kind == "calls" || sc.Kind == "stop-at-once" || sc.Kind == "stop-slow-ping" || sc.Kind == "stop-twice" {
 				base.Verdict = drv.Violated
 				base.Clause = "stop-crash"
 				base.FindingKey = "C19/stop-crash"
@@ -227,7 +242,7 @@ func runC19(sc drv.Scenario) drv.Result {
 		iv = 20
 	}
 	cfg := &config.HealthCheck{Interval: time.Duration(iv) * time.Millisecond, Timeout: time.Second}
-	pc := &pingClient{script: p.Script, after: make(chan int, 64), slowFail: time.Duration(p.SlowFailMs) * time.Millisecond}
+	pc := &pingClient{script: p.Script, after: make(chan int, 64), slowFail: time.Duration(p.SlowFailMs) * time.Millisecond, failRes: p.FailWithResult}
 	res := drv.Result{Verdict: drv.Held, Events: map[string]int{}, Checks: 1, Nontrivial: strings.Contains(p.Script, "F") || p.StopAt > 0 || len(p.Calls) > 1,
 		TraceHash: drv.Hash(sc.Kind, p.Script, fmt.Sprint(p.StopAt), strings.Join(p.Calls, ","))}
 	viol := func(clause, detail string) drv.Result {
@@ -287,6 +302,43 @@ func runC19(sc drv.Scenario) drv.Result {
 		res.Nontrivial = true
 		res.Events["trials"] = trials
 		res.Sample = map[string]any{"calls": "Start, Stop during a 1.5 s ping", "trials": trials, "pings_after_stop": 0}
+	case "stop-twice":
+		trials := 12
+		for tnum := 0; tnum < trials; tnum++ {
+			pcs := &pingClient{script: "SSSSSSSS", after: make(chan int, 64), delay: 300 * time.Millisecond}
+			h := couchbase.NewHealthCheck(cfg, pcs)
+			h.Start()
+			if !hx.WaitFor(5*time.Second, func() bool { return atomic.LoadInt32(&pcs.inflight) == 1 }) {
+				return drv.Result{Verdict: drv.Inconclusive, Detail: "no ping in flight"}
+			}
+			time.Sleep(3 * cfg.Interval)
+			var first int32 = -1
+			var wg sync.WaitGroup
+			stuck := make(chan struct{})
+			for g := 0; g < 2; g++ {
+				wg.Add(1)
+				go func() {
+					defer wg.Done()
+					h.Stop()
+					// pings started when the first of the two calls returned
+					atomic.CompareAndSwapInt32(&first, -1, int32(pcs.count()))
+				}()
+			}
+			go func() { wg.Wait(); close(stuck) }()
+			select {
+			case <-stuck:
+			case <-time.After(15 * time.Second):
+				return viol("stop-hang", "two concurrent Stop() calls during a ping did not both return within 15 s\n"+strings.Join(hx.LibStacks(), "\n"))
+			}
+			time.Sleep(700 * time.Millisecond)
+			if n := int32(pcs.count()); n != atomic.LoadInt32(&first) {
+				return viol("ping-after-stop", fmt.Sprintf("trial %d: two concurrent Stop() calls during a 300 ms ping: %d ping(s) were issued after the first of them had returned", tnum, n-atomic.LoadInt32(&first)))
+			}
+			res.Checks++
+		}
+		res.Nontrivial = true
+		res.Events["trials"] = trials
+		res.Sample = map[string]any{"calls": "Start, Stop || Stop during a 300 ms ping", "trials": trials, "pings_after_stop": 0}
 	case "stop-at-once":
 		h := couchbase.NewHealthCheck(cfg, pc)
 		h.Start()
